@@ -89,6 +89,7 @@ Inductive mcall :=
 | CFieldsAndFragment (fm : fmap) (frag : name) (mutex : bool)
 | CBetweenFragments (f1 f2 : name) (mutex : bool)
 | CBetween (mutex : bool) (fm1 fm2 : fmap)
+| CFragmentLoop (fm : fmap) (frags : list name) (mutex : bool)   (* one collection of fields against a list of fragments, with its own visited list *)
 | CWithin (fm : fmap)
 | CWithinSelectionSet (parent : option type_def) (sels : list selection).
 
@@ -152,10 +153,16 @@ Fixpoint mrun (fuel : nat) (s : sdocument) (d : document) (c : mcall) (st : msta
           let '(fm1, fr1) := get_fields_and_fragment_names s (opt_bind pn1 (type_by_name s)) sels1 in
           let '(fm2, fr2) := get_fields_and_fragment_names s (opt_bind pn2 (type_by_name s)) sels2 in
           seq_calls run
-            ([CBetween mutex fm1 fm2] ++
-             map (fun f => CFieldsAndFragment fm1 f mutex) fr2 ++
-             map (fun f => CFieldsAndFragment fm2 f mutex) fr1 ++
+            ([CBetween mutex fm1 fm2; CFragmentLoop fm1 fr2 mutex; CFragmentLoop fm2 fr1 mutex] ++
              flat_map (fun a => map (fun b => CBetweenFragments a b mutex) fr2) fr1) st
+      | CFragmentLoop fm frags mutex =>
+          (* a fresh list of compared fragments for this collection of fields *)
+          let saved := ms_visited st in
+          match seq_calls run (map (fun f => CFieldsAndFragment fm f mutex) frags)
+                          (mkMS (ms_compared st) [] (ms_being st)) with
+          | Some (st1, cs) => Some (mkMS (ms_compared st1) saved (ms_being st1), cs)
+          | None => None
+          end
       | CFieldsAndFragment fm fname mutex =>
           match known_fragment d fname with
           | None => Some (st, [])
@@ -210,13 +217,23 @@ Fixpoint mrun (fuel : nat) (s : sdocument) (d : document) (c : mcall) (st : msta
                              (pairs_within (snd kf))) fm) st
       | CWithinSelectionSet parent sels =>
           let '(fm, frs) := get_fields_and_fragment_names s parent sels in
-          seq_calls run
-            ([CWithin fm] ++
-             (fix go (l : list name) : list mcall :=
-                match l with
-                | [] => []
-                | f1 :: r => CFieldsAndFragment fm f1 false :: map (fun f2 => CBetweenFragments f1 f2 false) r ++ go r
-                end) frs) st
+          (* (A) within the collection; then, sharing ONE fresh visited list, for every fragment:
+             (B) the fields against it, (C) it against every later fragment *)
+          match run (CWithin fm) st with
+          | Some (st0, cs0) =>
+              let saved := ms_visited st0 in
+              match seq_calls run
+                      ((fix go (l : list name) : list mcall :=
+                          match l with
+                          | [] => []
+                          | f1 :: r => CFieldsAndFragment fm f1 false :: map (fun f2 => CBetweenFragments f1 f2 false) r ++ go r
+                          end) frs)
+                      (mkMS (ms_compared st0) [] (ms_being st0)) with
+              | Some (st1, cs1) => Some (mkMS (ms_compared st1) saved (ms_being st1), cs0 ++ cs1)
+              | None => None
+              end
+          | None => None
+          end
       end
   end.
 
